@@ -220,7 +220,7 @@ def run_campaign(cp, workdir, engines=("large", "fast"), nshards=NCPU, maxsteps=
         for eng in engines:
             b = os.path.join(workdir, "s%02d.%s.batch" % (si, eng))
             write_batch(cp, sh_cases, eng, b, rc_cache)
-            rec_cmds.append([os.path.join(BIN, "interp_trace"), b, os.path.join(workdir, "s%02d.%s.ndjson" % (si, eng)), "10"])
+            rec_cmds.append([os.path.join(BIN, "interp_trace"), b, os.path.join(workdir, "s%02d.%s.ndjson" % (si, eng)), "30"])
     t1 = time.time()
     res = run_parallel(rec_cmds, env={"VERIF_MAXSTEPS": str(maxsteps), "USCXML_NOCACHE_FILES": "YES"})
     for (rc, out), cmd in zip(res, rec_cmds):
